@@ -534,6 +534,54 @@ ARG_CODES = ['na', 'nb=1', 'nc: int']
 KW_CODES = ['kk=1', '**kw']
 
 _BODY_FIELDS = ('body', 'orelse', 'finalbody')
+VIRT_FIELDS = {ast.arguments: '_all', ast.Call: '_args', ast.ClassDef: '_bases', ast.Dict: '_all', ast.MatchMapping: '_all',
+               ast.MatchClass: '_attrs', ast.Compare: '_all'}
+
+# deterministic product: every marker shape of a signature and every other virtual field
+VIRT_SHAPES = [
+    ('def f(a, b, /, c, d=1, *, e, f=2, g=3, **k): pass', [['body', 0], ['args', None]]),
+    ('def f(a, *, b=1, c=2, d=3): pass', [['body', 0], ['args', None]]),
+    ('def f(a, /, b=1, *args, c, d=2, **kw): pass', [['body', 0], ['args', None]]),
+    ('def f(*, a, b=1, c): pass', [['body', 0], ['args', None]]),
+    ('def f(a=1, b=2, c=3): pass', [['body', 0], ['args', None]]),
+    ('def f(*a, b=1, c, d=2): pass', [['body', 0], ['args', None]]),
+    ('def f(a, b, /): pass', [['body', 0], ['args', None]]),
+    ('def f(a, /, *, b): pass', [['body', 0], ['args', None]]),
+    ('def f(a: int = 1, *b: str, c: int = 2, **d: dict) -> None: pass', [['body', 0], ['args', None]]),
+    ('g = lambda a, *, b=1, c=2, **k: 0', [['body', 0], ['value', None], ['args', None]]),
+    ('f(a, b, *c, k=1, *d, **e, j=2)', [['body', 0], ['value', None]]),
+    ('f(a, (b), c)', [['body', 0], ['value', None]]),
+    ('class C(A, B, *c, k=1, **e): pass', [['body', 0]]),
+    ('x = {a: 1, **b, c: 2, d: 3}', [['body', 0], ['value', None]]),
+    ('match x:\n case {1: a, 2: b, 3: c, **r}: pass', [['body', 0], ['cases', 0], ['pattern', None]]),
+    ('match x:\n case C(a, b, k=c, j=d): pass', [['body', 0], ['cases', 0], ['pattern', None]]),
+    ('x = a < b <= c != d', [['body', 0], ['value', None]]),
+]
+
+
+def virt_product():
+    """[(src, steps)]: shapes x spans x (cut / delete / copy / through a view), each preceded by every query on every
+    node"""
+    from fst import FST
+    out = []
+    for src, path in VIRT_SHAPES:
+        root = FST(src, 'exec')
+        a = at_path(root.a, tuple((n, i) for n, i in path))
+        fld = VIRT_FIELDS[a.__class__]
+        n = len(getattr(a.f, fld))
+        pre = [[list(map(list, p)), q] for p, _ in enum_nodes(root.a) for q in QNAMES]
+        for i in range(n + 1):
+            for j in range(i, n + 1):
+                if i == j:
+                    continue
+                for how in ('cut', 'del', 'copy', 'viewcut', 'viewdel'):
+                    for norm in (True, False):
+                        if not norm and (how in ('copy', 'viewcut', 'viewdel') or a.__class__ is ast.Compare):
+                            continue        # norm=False may leave a one-operand Compare: documented invalid tree
+                        out.append((src, [{'pre': pre, 'op': {'op': 'virt', 'path': path, 'field': fld, 'start': i,
+                                                               'stop': j, 'how': how, 'norm': norm}}]))
+    return out
+
 _ELT_KINDS = (ast.List, ast.Tuple, ast.Set)
 
 
@@ -561,7 +609,26 @@ def gen_op(rng, root, src_gaps=None):
     kind = rng.choice(['replace_expr', 'replace_expr', 'replace_stmt', 'remove', 'remove', 'insert', 'insert',
                        'append', 'put_slice', 'put_src', 'put_src', 'view', 'view', 'prepend', 'del_slice',
                        'put_src_none', 'put_src_none', 'line_comment', 'line_comment', 'line_comment', 'docstr',
-                       'par', 'unpar', 'unpar'])
+                       'par', 'unpar', 'unpar', 'virt', 'virt'])
+    if kind == 'virt':
+        c = []
+        for p, a in nodes:
+            fld = VIRT_FIELDS.get(a.__class__)
+            if fld:
+                c.append((p, a, fld))
+        if not c:
+            return None
+        p, a, fld = rng.choice(c)
+        try:
+            n = len(getattr(a.f, fld))
+        except Exception:
+            return None
+        i = rng.randint(0, n)
+        j = rng.randint(i, n)
+        if i == j and n:
+            j = min(n, i + 1)
+        return {'op': 'virt', 'path': list(map(list, p)), 'field': fld, 'start': i, 'stop': j,
+                'how': rng.choice(['cut', 'cut', 'del', 'copy', 'viewcut', 'viewdel'])}
     if kind == 'line_comment':
         stmts = [(p, a) for p, a in nodes if p and isinstance(a, (ast.stmt, ast.ExceptHandler, ast.match_case))]
         if not stmts:
@@ -740,6 +807,8 @@ def gen_op(rng, root, src_gaps=None):
 
 
 def op_kind(op):
+    if op['op'] == 'virt':
+        return f"virt-{op['how']}"
     return op['op'] + ('-' + op['vop'] if op['op'] == 'view' else '')
 
 
@@ -795,6 +864,27 @@ def apply_op(root, op):
     path = tuple((n, i) for n, i in op['path'])
     a = at_path(root.a, path)
     f = a.f
+    if k == 'virt':
+        # get / cut / delete a span of a virtual field (arguments._all, Call._args, ClassDef._bases, Dict._all,
+        # MatchMapping._all, MatchClass._attrs, Compare._all) or of a plain list field
+        from fst import FST
+        fld, st, sp, how = op['field'], op['start'], op['stop'], op['how']
+        with FST.options(**(opts if op.get('norm', True) else {})):
+            if how == 'cut':
+                f.get_slice(st, sp, fld, cut=True)
+            elif how == 'copy':
+                f.get_slice(st, sp, fld, cut=False)
+            elif how == 'del':
+                f.put_slice(None, st, sp, fld)
+            elif how == 'viewcut':
+                getattr(f, fld)[st:sp].cut()
+            elif how == 'viewdel':
+                del getattr(f, fld)[st:sp]
+            elif how == 'viewcopy':
+                getattr(f, fld)[st:sp].copy()
+            else:
+                raise ValueError(how)
+        return {}
     if k == 'line_comment':
         f.put_line_comment(op['text'], op['field'], op['full'])
         return {}
